@@ -27,11 +27,10 @@ func vhC08Kernel() {
 	}
 	if total > 0 && current >= 0 && current < total {
 		// nearest cell: |cells*total - width*current| <= total/2 + slack of one float tie
-		d := cells*total - w*current
-		vAssert(d <= total && -d <= total, "C08.kernel.proportional")
+		vAssert(vMulDiffWithin(cells, total, w, current, 1, total), "C08.kernel.proportional")
 		if total <= 1<<32 {
 			// below 2^32 the float error (3 ulp) cannot cross a rounding tie: exactly the nearest cell
-			vAssert(2*d <= total && -2*d <= total, "C08.kernel.nearest")
+			vAssert(vMulDiffWithin(cells, total, w, current, 2, total), "C08.kernel.nearest")
 		}
 	}
 	vCover("C08.kernel.reach")
